@@ -85,6 +85,7 @@ type Frame struct {
 	depth    int
 	siteOrd  map[string]int // call-site ordinals are static; see Run.siteOrdinals
 	loopOld  map[*ssa.BasicBlock]string
+	loopPre  map[*ssa.BasicBlock]*State // state on first arrival at a loop header, for (pre e) in invariants
 	top      bool
 	retNames []string
 }
@@ -113,6 +114,10 @@ func (f *Frame) clone() *Frame {
 	n.loopOld = make(map[*ssa.BasicBlock]string, len(f.loopOld))
 	for k, v := range f.loopOld {
 		n.loopOld[k] = v
+	}
+	n.loopPre = make(map[*ssa.BasicBlock]*State, len(f.loopPre))
+	for k, v := range f.loopPre {
+		n.loopPre[k] = v
 	}
 	return n
 }
